@@ -36,3 +36,24 @@ package ring
 //@   loop 3 invariant len(tokens) > 0 && sortedStrict(tokens) && (forall j int :: 0 <= j && j < len(tokens) ==> in(tokens[j], r.ringInstanceByToken))
 //@   loop 3 invariant 0 <= iterations && iterations <= len(tokens) && 0 <= p && p <= len(tokens)
 //@   modifies nothing
+//@
+//@ # ---- partition ring shuffle shard (C12, "the partition ring gives the same guarantees over active partitions") ----
+//@ # member(p, lb, until): a partition may be part of a shard: never PENDING; ACTIVE, or (with look-back) changed inside the window
+//@ pred shardMember(p PartitionDesc, lookbackPeriod int64, until int64) = p.State != PartitionPending && (p.State == PartitionActive || (lookbackPeriod > 0 && p.StateTimestamp >= until))
+//@ assume func PartitionRingDesc.WithPartitions
+//@   modifies nothing
+//@ assume func NewPartitionRingWithOptions
+//@   modifies nothing
+//@ func PartitionRing.shuffleShard
+//@   property C12
+//@   requires prRep(r)
+//@   ghost var size0 int = size
+//@   # a request for no particular size, or for at least as many partitions as are registered, is a request for the whole
+//@   # ring: the walk must be allowed to visit every partition (INACTIVE ones inside the look-back window included)
+//@   loop 0 init assert wholering: size == ((size0 <= 0 || size0 >= len(r.desc.Partitions)) ? len(r.desc.Partitions) : size0)
+//@   at before@ring.PartitionRingDesc.WithPartitions: assert members: forall pid int32 :: in(pid, result) ==> in(pid, r.desc.Partitions) && shardMember(r.desc.Partitions[pid], lookbackPeriod, lookbackUntil)
+//@   at before@ring.PartitionRingDesc.WithPartitions: assert nolookback: lookbackPeriod == 0 ==> (forall pid int32 :: in(pid, result) ==> r.desc.Partitions[pid].State == PartitionActive)
+//@   loop 0 invariant !isnil(result) && !isnil(exclude) && same(r, old(r)) && tokensCount == len(r.ringTokens) && (lookbackPeriod > 0 ==> lookbackUntil == unix(mktime(ns(now) - lookbackPeriod)))
+//@   loop 0 invariant forall pid int32 :: in(pid, result) ==> in(pid, r.desc.Partitions) && shardMember(r.desc.Partitions[pid], lookbackPeriod, lookbackUntil)
+//@   loop 1 invariant !isnil(result) && !isnil(exclude) && same(r, old(r)) && tokensCount == len(r.ringTokens) && 0 <= iterations && iterations <= tokensCount && 0 <= p && p <= tokensCount
+//@   loop 1 invariant forall pid int32 :: in(pid, result) ==> in(pid, r.desc.Partitions) && shardMember(r.desc.Partitions[pid], lookbackPeriod, lookbackUntil)
